@@ -242,6 +242,17 @@ def replayLine (s : DState) (op : String) (mid : Nat) (args : List String) (orc 
       .ok (setMap s mid m) ((obsFields m out).map (fun (k, v) =>
         if k == "panic" then (k, if fired then "injected" else "-") else (k, v)))
     | .error f => .fault f
+  -- set lines: own `ret`; ids of unit values (0) do not exist; `remove` drops the key it takes out
+  let finSet (r : Except Fault (Map × Out)) (retOf : Map → Out → String) (dropsReturned : Bool) : Replay :=
+    match r with
+    | .ok (m, out) =>
+      let dropped := (if dropsReturned then out.returned ++ out.cost.dropped else out.cost.dropped).filter (· != 0)
+      .ok (setMap s mid m) ((obsFields m out).filterMap (fun (f, v) =>
+        if f == "ret" then some (f, retOf m out)
+        else if f == "drop" then some (f, fmtIds dropped)
+        else if f == "retd" then none
+        else some (f, v)))
+    | .error f => .fault f
   let needMap (k : Map → Replay) : Replay :=
     match getMap s mid with
     | some m => k m
@@ -354,6 +365,28 @@ def replayLine (s : DState) (op : String) (mid : Nat) (args : List String) (orc 
       | some p => finF (resolveEmptF (fun e => Map.drainFilterFusedOut m p fuse { o with empt := e }) glObs)
   | "freplace", [k, kid] => nat k fun k => nat kid fun kid => needMap fun m =>
       finF (resolveEmptF (fun e => Map.replaceFusedOut m k kid { o with empt := e }) glObs)
+  -- single-set operations of a `HashSet` (`extra set`): `SetOps` of GriddleModel/Set.lean; a `()` is no object (id 0)
+  | "sinsert", [k, kid] => nat k fun k => nat kid fun kid => needMap fun m =>
+      finSet (resolveHits (fun h => SetOps.insert c m k kid { o with hits := h }) glObs (c.R + 2))
+        (fun _ out => if out.ret == .optV none then "1" else "0") false
+  | "sreplace", [k, kid] => nat k fun k => nat kid fun kid => needMap fun m =>
+      let steps : List Map.EStep := if (m.find k).isSome then [.occReplaceKey kid] else [.vacInsert false kid 0 0 0]
+      finSet (resolveBoth (fun e h => SetOps.replace c m k kid { o with empt := e, hits := h }) glObs
+                ((field? obs "mb").bind (·.toNat?)) (chainCands (c.R + 2) 0 steps))
+        (fun _ out => fmtIds (out.returned.filter (· != 0))) false
+  | "sgoi", [k, kid, lzy] => nat k fun k => nat kid fun kid => needMap fun m =>
+      finSet (resolveBoth (fun e h => SetOps.getOrInsert c m k kid (lzy == "1") { o with empt := e, hits := h }) glObs
+                ((field? obs "mb").bind (·.toNat?)) (chainCands (c.R + 2) 0 [.orInsert (lzy == "1") kid 0 0 0]))
+        (fun m' _ => match SetOps.repr m' k with | some x => toString x | none => "-") false
+  | "sremove", [k] => nat k fun k => needMap fun m =>
+      finSet (resolveEmpt (fun e => SetOps.remove m k { o with empt := e }) glObs)
+        (fun _ out => if out.ret == .optKV none then "0" else "1") true
+  | "stake", [k] => nat k fun k => needMap fun m =>
+      finSet (resolveEmpt (fun e => SetOps.remove m k { o with empt := e }) glObs)
+        (fun _ out => fmtIds (out.returned.filter (· != 0))) false
+  | "sget", [k] => nat k fun k => needMap fun m =>
+      .ok s ((obsFields m (SetOps.get m k)).map (fun (f, v) =>
+        if f == "ret" then (f, match SetOps.repr m k with | some x => toString x | none => "-") else (f, v)))
   -- hashbrown's raw table driven directly (`extra hb`): the contract model `HB` of GriddleModel/Table.lean alone
   | "hbnew", [cap] => nat cap fun cap =>
       match HB.tryWithCapacity c cap with
